@@ -144,31 +144,31 @@ def viols_from(res, rows, scenarios, monitors=None):
 
 
 def scripted(run, scripts, consts):
-    """scripts: list of env-action lists; TLC (ScenScript.tla) computes the predicted events for each.
+    """scripts: list of env-action lists; TLC (ScenScript.tla) computes the predicted events for each (all in one run).
     Returns behaviours (list of event lists) in the same order; incomplete scripts raise Infra."""
+    run.nscript = getattr(run, "nscript", 0) + 1
+    sf = run.path("script_%d.ndjson" % run.nscript)
+    vlib.write_ndjson(sf, [{"script": [dict({"a": "", "c": "", "i": 0, "k": "", "s": "", "hold": False}, **e) for e in sc]} for sc in scripts])
+    c = dict(consts)
+    c.setdefault("Depth", "0")
+    c.setdefault("AllowPanic", "FALSE")
+    c.setdefault("AllowStopReading", "FALSE")
+    c.setdefault("AllowAcceptFault", "FALSE")
+    c.setdefault("AllowSilent", "FALSE")
+    body = "SPECIFICATION ScriptSpec\nINVARIANTS EmitScript\nCHECK_DEADLOCK FALSE\n"
+    res = run.tlc("ScenScript", cfg(c, body), env={"SCRIPT": sf}, workers=1, timeout=1800, heap="8g")
+    best = {}
+    for line in res.out.splitlines():
+        if line.startswith('"{'):
+            try:
+                o = json.loads(json.loads(line))
+            except Exception:
+                continue
+            if "behaviour" in o and o.get("complete"):
+                best[o["script"]] = o["behaviour"]
     out = []
-    for n, sc in enumerate(scripts):
-        sf = run.path("script_%d.ndjson" % n)
-        full = [dict({"a": "", "c": "", "i": 0, "k": "", "s": "", "hold": False}, **e) for e in sc]
-        vlib.write_ndjson(sf, [{"script": full}])
-        c = dict(consts)
-        c.setdefault("Depth", "0")
-        c.setdefault("AllowPanic", "FALSE")
-        c.setdefault("AllowStopReading", "FALSE")
-        c.setdefault("AllowAcceptFault", "FALSE")
-        c.setdefault("AllowSilent", "FALSE")
-        body = "SPECIFICATION ScriptSpec\nINVARIANTS EmitScript\nCHECK_DEADLOCK FALSE\n"
-        res = run.tlc("ScenScript", cfg(c, body), env={"SCRIPT": sf}, workers=1, timeout=900, heap="8g")
-        best = None
-        for line in res.out.splitlines():
-            if line.startswith('"{'):
-                try:
-                    o = json.loads(json.loads(line))
-                except Exception:
-                    continue
-                if "behaviour" in o and o.get("complete"):
-                    best = o["behaviour"]
-        if best is None:
-            raise vlib.Infra("script %d could not be executed completely by the model" % n)
-        out.append(best)
+    for n in range(len(scripts)):
+        if n + 1 not in best:
+            raise vlib.Infra("script %d (%s ...) could not be executed completely by the model" % (n, json.dumps(scripts[n])[:200]))
+        out.append(best[n + 1])
     return out
